@@ -1,4 +1,5 @@
 """C01 - laminate ABD/ABDE (DESIGN.md section 5, C01)."""
+import gc
 import math
 import random
 
@@ -155,6 +156,8 @@ def run(tier, seed, build):
     blocks_bad = []
 
     def add(stack, off, ev, form):
+        if eid[0] % 200 == 199:
+            gc.freeze()      # Panel.calc_k0 calls gc.collect(): keep the recorded trace out of its reach
         obs, ok = observe(stack, off, form)
         if not ok:
             blocks_bad.append((enc_stack(stack), str(off)))
